@@ -37,6 +37,9 @@ RULE = (
 PREFIXES = [None, "#/definitions", "https://example.org/schemas/"]
 
 
+FORCE: dict = {}     # replay: {"via": value of the recorded case (or None)}
+
+
 def refs_in(doc, acc=None):
     if acc is None:
         acc = []
@@ -84,6 +87,14 @@ def build_checked(ctx, case, T, dialect, all_refs, prefix, tags=frozenset()):
         kw = {"dialect": dialect, "all_refs": all_refs}
         if prefix is not None:
             kw["ref_prefix"] = prefix
+        via = case.get("via")
+        if via:
+            # the same request made with a caller-supplied Context (fresh, no ref_prefix of its own) built for the
+            # SAME or for the OTHER dialect: the per-call dialect / prefix decide, as they do without a Context
+            from mashumaro.jsonschema.models import Context
+
+            other = [d for d in dialects() if d is not dialect][0]
+            kw["context"] = Context(dialect=other) if via == "context-other-dialect" else Context(dialect=dialect)
         sch = build_json_schema(T, **kw)
     except RecursionError:
         ctx.violation(case, {"error": "RecursionError"}, "build_json_schema succeeds", "schema generation recursed without bound", lambda f, _t=tags: f["id"] == "K8" and "self-reference" in _t)
@@ -137,7 +148,13 @@ def run_cases(ctx, cases, annot=False):
                     case = {"ty": ty, "dialect": type(dialect).__name__, "all_refs": all_refs, "ref_prefix": prefix}
                     if annot:
                         case["annot"] = annot
-                    ctx.count(case, nontrivial, kind=f"all_refs:{all_refs}")
+                    r = rng.random()
+                    if "via" in FORCE:
+                        if FORCE["via"]:
+                            case["via"] = FORCE["via"]
+                    elif r < 0.3:
+                        case["via"] = "context-other-dialect" if r < 0.2 else "context"
+                    ctx.count(case, nontrivial, kind=f"all_refs:{all_refs}" + (":" + case["via"] if "via" in case else ""))
                     doc = build_checked(ctx, case, ann, dialect, all_refs, prefix, tags)
                     if doc is not None and not all_refs and inline_doc is None:
                         inline_doc = doc
@@ -281,5 +298,6 @@ def replay(ctx, body):
     if c and "template" in c:
         run_templates(ctx)
     elif c and "ty" in c:
+        FORCE["via"] = c.get("via")
         run_cases(ctx, [c["ty"]], annot=c.get("annot", False))
     return ctx.finish()
